@@ -111,6 +111,69 @@ class FnView:
             tgt = next((tg for v, tg in tj.arms if v == val), tj.otherwise)
             if tgt is not None and not b.cleanup[tgt]:
                 self.succ[bi] = [tgt]
+        # the same for `r = Ok(..) | Err(..); goto J` where J is nothing but `c = Try::branch(r)` followed by the switch on
+        # c's discriminant (the `?` applied to the result slot of an inlined helper): an Err definition goes to the Break arm,
+        # an Ok definition to the Continue arm
+        for bi in range(self.n):
+            if b.cleanup[bi]:
+                continue
+            t = b.term(bi)
+            if t.kind != "goto" or not t.targets:
+                continue
+            j = t.targets[0]
+            hops = 0
+            fwd = {}      # locals that merely forward the result slot on the way (`dest = move slot`)
+
+            def _only_moves(blk):
+                for st_ in b.stmts(blk):
+                    if not (st_.kind == "a" and st_.place.is_local() and st_.rv.op == "use" and st_.rv.ops and
+                            st_.rv.ops[0].place is not None and st_.rv.ops[0].place.is_local()):
+                        return False
+                return True
+            while hops < 4 and not b.cleanup[j] and _only_moves(j) and b.term(j).kind == "goto" and b.term(j).targets:
+                for st_ in b.stmts(j):
+                    fwd[st_.place.local] = st_.rv.ops[0].place.local
+                j = b.term(j).targets[0]      # the inlined callee's return block, then the caller's continuation
+                hops += 1
+            if b.cleanup[j] or not _only_moves(j):
+                continue
+            for st_ in b.stmts(j):
+                fwd[st_.place.local] = st_.rv.ops[0].place.local
+            tj = b.term(j)
+            if tj.kind != "call" or tj.call.callee is None or "ops::Try>::branch" not in tj.call.callee.name:
+                continue
+            a0 = tj.call.args[0].place if tj.call.args else None
+            if a0 is None or not a0.is_local() or not tj.call.dest.is_local() or not tj.targets:
+                continue
+            l = a0.local
+            seen_ = set()
+            while l in fwd and l not in seen_:
+                seen_.add(l)
+                l = fwd[l]
+            k = tj.targets[0]
+            if b.cleanup[k]:
+                continue
+            ks = b.stmts(k)
+            tk = b.term(k)
+            if len(ks) != 1 or ks[0].kind != "a" or ks[0].rv.op != "discr" or ks[0].rv.place is None or \
+               ks[0].rv.place.local != tj.call.dest.local or tk.kind != "switch" or tk.discr.place is None or \
+               tk.discr.place.local != ks[0].place.local:
+                continue
+            arm = None
+            for st in b.stmts(bi):
+                if st.kind == "a" and st.place.is_local() and st.place.local == l:
+                    arm = None
+                    rv = st.rv
+                    if rv.op == "agg" and isinstance(rv.a, tuple) and rv.a[0] == "adt":
+                        if rv.a[2] in ("Ok", "Some"):
+                            arm = 0
+                        elif rv.a[2] in ("Err", "None"):
+                            arm = 1
+            if arm is None:
+                continue
+            tgt = next((tg for v, tg in tk.arms if v == arm), tk.otherwise)
+            if tgt is not None and not b.cleanup[tgt]:
+                self.succ[bi] = [tgt]
 
     # ------------------------------------------------------------- definitions
     @property
@@ -611,6 +674,38 @@ class FnView:
         v._expr_cache = {}
         return v
 
+    def _single_success_def(self, local, depth):
+        """`local` is set on several paths, exactly one of them to `Ok(v)` / `Some(v)` and all others to an error / None
+        value (the result slot of an inlined `Result`- or `Option`-returning helper): the value v.  Whoever takes the
+        payload of `local` (`?`, `if let Some`, `unwrap`) is on the success path and therefore sees v."""
+        live = self.live_blocks()
+        ds = [d for d in self.defs.get(local, []) if d[0] in live]
+        if len(ds) < 2:
+            return None
+        good = []
+        for (bi, idx, obj) in ds:
+            if idx == "T":
+                nm = obj.callee.name if obj.callee else ""
+                if "FromResidual" in nm:
+                    continue
+                return None
+            if obj.kind != "a":
+                return None
+            rv = obj.rv
+            if rv.op == "agg" and isinstance(rv.a, tuple) and rv.a[0] == "adt":
+                v = rv.a[2]
+                if v in ("Ok", "Some") and len(rv.ops) == 1:
+                    good.append(rv.ops[0])
+                    continue
+                if v in ("Err", "None"):
+                    continue
+            if rv.op == "use" and rv.ops and rv.ops[0].const is not None and "None" in rv.ops[0].const.get("s", ""):
+                continue
+            return None
+        if len(good) != 1:
+            return None
+        return self.expr(good[0], depth + 1)
+
     def _vname(self, local):
         n = self.b.local_name(local)
         return n if n else f"_{local}"
@@ -623,6 +718,9 @@ class FnView:
             return ("var", self._vname(local))
         sd = self.single_def(local)
         if sd is None:
+            ok1 = self._single_success_def(local, depth)
+            if ok1 is not None:
+                return ("okof", ok1, ("var", self._vname(local)))
             return ("var", self._vname(local))
         bi, idx, obj = sd
         if idx == "T":
@@ -767,6 +865,8 @@ def payload(e):
     e = peel(e)
     if e[0] == "wrap":
         return e[1]
+    if e[0] == "okof":
+        return e[1]
     return ("payload", e0 if e0[0] == "let" else e)
 
 
@@ -816,6 +916,8 @@ def render(e):
         return f"{render(e[1])}.{e[3]}"
     if k == "variant":
         return f"({render(e[1])} as {e[2]})"
+    if k == "okof":
+        return render(e[2])
     if k == "payload":
         return f"{render(e[1])}?"
     if k == "wrap":
